@@ -254,6 +254,8 @@ def configurations(run, js, universe):
     nrand = 50 if run.tier == "quick" else 500
     if run.tier != "quick":
         cfgs += singles_on
+        for a, b in zip(universe, universe[1:]):
+            cfgs.append(("off2:%s+%s" % (a, b), [x for x in universe if x not in (a, b)]))
     else:
         cfgs += [singles_on[i] for i in sorted(run.rng.sample(range(len(singles_on)), min(8, len(singles_on))))]
     for i in range(nrand):
@@ -418,11 +420,40 @@ def diagnose(js):
     return why
 
 
+def corpus_jobs(universe):
+    """corpus/C13/*.txt -> [(label, defined, [case lines])], grouped by configuration"""
+    d = os.path.join(VERIF, "corpus", "C13")
+    groups = {}
+    if os.path.isdir(d):
+        for fn in sorted(os.listdir(d)):
+            for line in open(os.path.join(d, fn)):
+                line = line.rstrip("\n")
+                if not line or line.startswith("#"):
+                    continue
+                f = line.split("\t")
+                c = f[-1]
+                if c == "@all" or c.startswith("@all-"):
+                    off = c[5:].split("-") if c.startswith("@all-") else []
+                    defined = [g for g in universe if g not in off]
+                elif c == "[]":
+                    defined = []
+                else:
+                    defined = c.split(",")
+                groups.setdefault(tuple(defined), []).append("\t".join(f[:-1] + [glist(defined)]))
+    return [("corpus-%d" % i, list(k), v) for i, (k, v) in enumerate(groups.items())]
+
+
 def check(run):
     run.snapshot()
     js = tr_registry(run)
     ok, failed, log = run.coq_props(["Properties_C13.v"])
     model = build_model(run)
+    chk = None
+    if run.tier == "thorough" and ok:
+        # independent re-check of the compiled property file (and everything it depends on) by coqchk
+        chk = subprocess.Popen(["timeout", "900", "coqchk", "-silent", "-o", "-Q", THEORIES, "Snoopy", "-Q", run.gen, "Gen",
+                                "-Q", os.path.join(run.scratch, "props"), "Props", "Props.Properties_C13"],
+                               stdout=subprocess.PIPE, stderr=subprocess.STDOUT, text=True)
     universe = guard_universe(js)
     impl = Impl(run, js)
     impl.prepare(list(universe))
@@ -430,7 +461,9 @@ def check(run):
     cfgs = configurations(run, js, universe)
     sentinel = js["sentinel"] if js["sentinel"] is not None else ""
 
-    jobs = [(label, defined, config_cases(js, defined, prb)) for label, defined in cfgs]
+    corp = corpus_jobs(universe)
+    jobs = corp + [(label, defined, config_cases(js, defined, prb)) for label, defined in cfgs]
+    cfgs = [(l, d) for l, d, _ in corp] + cfgs
 
     def one(job):
         label, defined, lines = job
@@ -510,6 +543,14 @@ def check(run):
                       {"stream": "config", "failing_input": {"configuration": describe(universe, defined), "defined": defined, "compiler": err[-1500:]},
                        "cases": ["arrays\tds\t" + glist(defined)]})
         nv += 1
+    if chk is not None:
+        cout = chk.communicate()[0]
+        axioms = re.search(r"\* Axioms:\s*(.*?)\n\s*\n", cout, re.S)
+        if chk.returncode != 0:
+            ok, failed = False, "coqchk"
+            log += "\ncoqchk: " + cout[-1500:]
+        else:
+            run.notes.append("coqchk -o Props.Properties_C13: ok, axioms: %s" % (axioms.group(1).strip() if axioms else "?"))
     if nobuild and ok:
         run.notes.append("%d of %d configurations do not compile (first: %s: %s); the tables are aligned, so no configuration that builds can misbind: not a C13 verdict"
                          % (len(nobuild), len(cfgs), nobuild[0][0], nobuild[0][2][-300:]))
@@ -525,7 +566,7 @@ def check(run):
                       {"stream": stream, "correspondence": "registry." + stream, "first_case": l, "model_output": mm, "impl_output": a, "cases": [l]})
     labels = {}
     for label, _ in cfgs:
-        fam = "random" if label.startswith("random") else label.split(":")[0]
+        fam = "random" if label.startswith("random") else "corpus" if label.startswith("corpus") else label.split(":")[0]
         labels[fam] = labels.get(fam, 0) + 1
     sizes = sorted(len(d) for _, d in cfgs)
     run.coverage.update({
@@ -536,7 +577,7 @@ def check(run):
                 "every single switch off, single switch on, seeded random subsets (densities 0.15/0.5/0.85/0.97); plus snoopy_genericregistry_* on generated arrays "
                 "with duplicates/prefixes/early sentinels; non-trivial = distinct (configuration, registry, lookup) whose answer actually called an implementation",
         "samples": [per_cfg[i][2][j][:200] for i, j in ((0, 4), (1, 60), (min(5, len(per_cfg) - 1), 80), (len(per_cfg) - 1, 100)) if j < len(per_cfg[i][2])] + gen_lines[:1],
-        "distribution": {"configurations": len(cfgs), "by_family": labels, "switches": len(universe),
+        "distribution": {"configurations": len(cfgs), "corpus_cases": sum(len(v) for _, _, v in corp), "by_family": labels, "switches": len(universe),
                          "defined_switches_min_median_max": [sizes[0], sizes[len(sizes) // 2], sizes[-1]],
                          "rows": {k: [len(js["registries"][k]["names"]), len(js["registries"][k]["ptrs"])] for k in KEYS},
                          "probe_names": len(prb), "generic_cases": len(gen_lines), "generic_mismatches": len(gen_bad),
